@@ -233,6 +233,42 @@ fn finish<D: std::fmt::Debug + PartialEq>(
                     let astral_before = line_has_astral_before(&case.text, pr.line as usize, pr.col as usize);
                     let cls = if pa.line != pr.line { "line" } else { "col" };
                     let t = if astral_before { "[after-astral-char]" } else { "" };
+                    // a lone CR is a line terminator of the language; a parser that counts lines by LF only puts every
+                    // later token on the wrong line: one cause, one key
+                    let lone_cr = [Some(*pr), *alt].into_iter().flatten().any(|pr| {
+                        // the reported position is exactly where the token is when lines are counted by LF alone
+                        let chars: Vec<char> = case.text.chars().collect();
+                        let (mut line, mut col, mut idx) = (0u32, 0u32, None);
+                        let mut i = 0;
+                        while i < chars.len() {
+                            if line == pr.line && col == pr.col {
+                                idx = Some(i);
+                                break;
+                            }
+                            match chars[i] {
+                                '\r' if chars.get(i + 1) == Some(&'\n') => {
+                                    i += 1;
+                                    line += 1;
+                                    col = 0;
+                                }
+                                '\r' | '\n' => {
+                                    line += 1;
+                                    col = 0;
+                                }
+                                _ => col += 1,
+                            }
+                            i += 1;
+                        }
+                        idx.is_some_and(|k| {
+                            let before = &chars[..k];
+                            let l = before.iter().filter(|c| **c == '\n').count() as u32;
+                            let c0 = before.iter().rev().take_while(|c| **c != '\n').count() as u32;
+                            before.iter().enumerate().any(|(j, c)| *c == '\r' && before.get(j + 1) != Some(&'\n') && !(j + 1 == before.len() && chars.get(k) == Some(&'\n'))) && pa.line == l && pa.col == c0
+                        })
+                    });
+                    if lone_cr {
+                        return viol(rep, "pos.mismatch:after-a-lone-carriage-return".into(), format!("{ka} reported at {}:{} but its token starts at {}:{} (a lone CR ends a line)", pa.line, pa.col, pr.line, pr.col), case, c, base);
+                    }
                     return viol(
                         rep,
                         format!("pos.mismatch:{ka}:{cls}{t}"),
